@@ -1201,7 +1201,10 @@ static int chmd_init_decomp(struct mschm_decompressor_p *self,
                              (struct mspack_file *) self, window_bits,
                              reset_interval / LZX_FRAME_SIZE,
                              4096, length, 0);
-  if (!self->d->state) self->error = MSPACK_ERR_NOMEMORY;
+  /* the decoder is set up. a reset table that could not be used (SpanInfo took
+   * its place above) is not an error of this call: do not report what
+   * reading it left in self->error */
+  self->error = (self->d->state) ? MSPACK_ERR_OK : MSPACK_ERR_NOMEMORY;
   return self->error;
 }
 
